@@ -92,9 +92,12 @@ impl syn::parse::Parse for InterpolatedValue {
 }
 
 impl InterpolatedValue {
-    pub fn get_ident(&self) -> Option<&Ident> {
+    /// The local the value is bound to before being given to the builder.
+    /// Variables and components don't share their names: a key can have a variable and a component of the same name.
+    pub fn get_ident(&self) -> Option<Ident> {
         match self {
-            InterpolatedValue::Var(ident) | InterpolatedValue::Comp(ident) => Some(ident),
+            InterpolatedValue::Var(ident) => Some(Self::format_ident(ident, true)),
+            InterpolatedValue::Comp(ident) => Some(Self::format_ident(ident, false)),
             InterpolatedValue::AssignedVar { .. }
             | InterpolatedValue::AssignedComp { .. }
             | InterpolatedValue::DirectComp { .. } => None,
@@ -111,19 +114,19 @@ impl InterpolatedValue {
 
     pub fn param(&mut self) -> (Ident, TokenStream) {
         match self {
-            InterpolatedValue::Var(ident) => (ident.clone(), quote!(#ident)),
-            InterpolatedValue::Comp(ident) => (ident.clone(), quote!(#ident)),
+            InterpolatedValue::Var(ident) => (Self::format_ident(ident, true), quote!(#ident)),
+            InterpolatedValue::Comp(ident) => (Self::format_ident(ident, false), quote!(#ident)),
             InterpolatedValue::AssignedVar { key, value } => {
                 let key = key.clone();
                 let ts = quote!(#value);
                 *self = InterpolatedValue::Var(key.clone());
-                (key.clone(), ts)
+                (Self::format_ident(&key, true), ts)
             }
             InterpolatedValue::AssignedComp { key, value } => {
                 let key = key.clone();
                 let ts = quote!(#value);
                 *self = InterpolatedValue::Comp(key.clone());
-                (key.clone(), ts)
+                (Self::format_ident(&key, false), ts)
             }
             InterpolatedValue::DirectComp {
                 key,
@@ -135,7 +138,7 @@ impl InterpolatedValue {
                 };
                 let key = key.clone();
                 *self = InterpolatedValue::Comp(key.clone());
-                (key.clone(), ts)
+                (Self::format_ident(&key, false), ts)
             }
         }
     }
@@ -146,11 +149,11 @@ impl ToTokens for InterpolatedValue {
         match self {
             InterpolatedValue::Var(ident) => {
                 let var_ident = Self::format_ident(ident, true);
-                quote!(#var_ident(#ident))
+                quote!(#var_ident(#var_ident))
             }
             InterpolatedValue::Comp(ident) => {
                 let comp_ident = Self::format_ident(ident, false);
-                quote!(#comp_ident(#ident))
+                quote!(#comp_ident(#comp_ident))
             }
             InterpolatedValue::AssignedVar { .. }
             | InterpolatedValue::AssignedComp { .. }
